@@ -94,7 +94,7 @@ def run(ctx) -> None:
            'SerializeToString and returns FromString', 20)
   ctx.import_rules('C07', {'R4', 'R8', 'R10'}, 'R9', 'deleting a study removes exactly that study (exact key filters, full cascade) on both backends; updating a deleted trial fails instead of re-creating it')
   ctx.import_rules('C04', {'R1', 'R4'}, 'R7', 'guards and the writes they protect share one critical section (otherwise an illegal call can still change a completed trial)')
-  ctx.import_rules('C05', {'R1', 'R2'}, 'R8', 'SQL backend: every accepted change is committed, every refused one leaves nothing uncommitted')
+  ctx.import_rules('C05', {'R1', 'R2', 'R7'}, 'R8', 'SQL backend: every accepted change is committed, every refused one leaves nothing uncommitted')
   ctx.trust('grpc.ServicerContext.abort(code, details) raises and never returns')
   ctx.trust('copy.deepcopy / Message.CopyFrom / FromString / SerializeToString produce copies')
 
